@@ -12,6 +12,8 @@
 //                       mode 2: a64::Assembler::embed_const_pool      mode 3: x86::Compiler::_new_const (global scope)
 //                               replaying every add of the current pool, + finalize
 //                       mode 5: as mode 3 but ConstPoolScope::kLocal inside a function (pool emitted by end_func)
+//                       mode 6: a64::Builder::embed_const_pool + finalize   mode 7: a64::Compiler::_new_const (global) + finalize
+//                       Assembler modes (0, 2, 4) write over a DIRTY destination (0xEE junk, assembler rewound by set_offset)
 //                       mode 4: x86::Assembler::embed_const_pool with a StringLogger attached; the `.db/.dw/.dd/.dq`
 //                               data directives of the log are parsed back into bytes: aux=ok,log=<item size>:<hex>
 //                     -> "E <hex> | pre=<n> lab=<label offset> end=<code size> pad=<1 if padding is all zero> aux=<...>"
@@ -21,6 +23,7 @@
 //                     constant of the current history back through its label+offset operand and stores it into a buffer
 //                       mode 0: x86::Compiler, new_const(kGlobal)     mode 1: x86::Compiler, new_const(kLocal)
 //                       mode 2: x86::Builder: `mov reg, [pool_label + offset]` loads, ret, embed_const_pool(label, pool)
+//                       mode 3: x86::Compiler, THREE functions in one CodeHolder, each with its own local pool + the shared global pool
 //                     -> "X <hex of the bytes read, constants in history order>" | "X UNSUPPORTED" on another host
 #include <asmjit/core.h>
 #include <asmjit/x86.h>
@@ -84,10 +87,10 @@ static Error emit_prefix(Emitter& e, size_t pre) {
   return Error::kOk;
 }
 
-static void report_embed(CodeHolder& code, const Label& label, size_t pre, const char* aux) {
+static void report_embed(CodeHolder& code, const Label& label, size_t pre, const char* aux, size_t end_override = SIZE_MAX) {
   Section* text = code.text_section();
   const uint8_t* buf = text->buffer().data();
-  size_t end = text->buffer().size();
+  size_t end = end_override != SIZE_MAX ? end_override : text->buffer().size();
   if (!code.is_label_bound(label)) { printf("E UNBOUND | pre=%zu lab=0 end=%zu pad=0 aux=%s\n", pre, end, aux); return; }
   size_t lab = size_t(code.label_offset(label));
   bool pad = true;
@@ -99,22 +102,81 @@ static void report_embed(CodeHolder& code, const Label& label, size_t pre, const
   printf(" | pre=%zu lab=%zu end=%zu pad=%d aux=%s%s\n", pre, lab, end, pad ? 1 : 0, aux, prefix_ok ? "" : ",PREFIX-CLOBBERED");
 }
 
+// Assembler paths: make the DESTINATION of fill() dirty. After the prefix, junk (0xEE) is emitted over the whole area the
+// pool (and its alignment padding) will occupy, then the assembler is rewound with set_offset(): embed_const_pool()
+// now writes over non-zero bytes, so a fill() that does not clear every gap byte shows up in the embedded image too.
+template<typename Asm>
+static void dirty_destination(Asm& a, State& st, size_t pre) {
+  size_t n = st.pool->size() + 2 * st.pool->alignment() + 16;
+  std::vector<uint8_t> junk(n, 0xEE);
+  a.embed(junk.data(), n);
+  a.set_offset(pre);
+}
+
+template<typename BuilderT>
+static void embed_builder(State& st, CodeHolder& code, size_t pre) {
+  BuilderT b(&code);
+  emit_prefix(b, pre);
+  Label l = b.new_label();
+  Error e = b.embed_const_pool(l, *st.pool);
+  Error f = b.finalize();
+  report_embed(code, l, pre, (e == Error::kOk && f == Error::kOk) ? "ok" : "error");
+}
+
+template<typename CompilerT>
+static void embed_compiler(State& st, CodeHolder& code, size_t pre, bool local) {
+  CompilerT cc(&code);
+  emit_prefix(cc, pre);
+  ConstPoolScope scope = local ? ConstPoolScope::kLocal : ConstPoolScope::kGlobal;
+  if (local) cc.add_func(FuncSignature::build<void>());
+  std::string aux = "ok";
+  uint32_t label_id = Globals::kInvalidId;
+  for (size_t i = 0; i < st.adds.size(); i++) {
+    const AddRec& r = st.adds[i];
+    BaseMem m;
+    Error e = cc._new_const(Out<BaseMem>(m), scope, r.data.data(), r.size);
+    bool ok = (e == Error::kOk);
+    if (ok != r.ok) { aux = "replay-status-mismatch@" + std::to_string(i); break; }
+    if (ok) {
+      if (size_t(int64_t(m.offset())) != r.off || m.signature().size() != uint32_t(r.size) || !m.has_base_label()) { aux = "replay-mem-mismatch@" + std::to_string(i); break; }
+      if (label_id == Globals::kInvalidId) label_id = m.base_id();
+      else if (label_id != m.base_id()) { aux = "replay-label-mismatch@" + std::to_string(i); break; }
+    }
+    else if (m.has_base() || m.offset() != 0) { aux = "replay-error-wrote-operand@" + std::to_string(i); break; }
+  }
+  if (local) { cc.ret(); cc.end_func(); }
+  Error f = cc.finalize();
+  if (f != Error::kOk) aux += ",finalize-error";
+  if (local) pre = 0;   // the function body precedes the pool: only alignment and contents are judged
+  if (label_id == Globals::kInvalidId) {
+    // no successful add: no pool node exists, nothing is emitted after the prefix
+    Section* text = code.text_section();
+    printf("E  | pre=%zu lab=%zu end=%zu pad=1 aux=%s,nopool\n", pre, text->buffer().size(), text->buffer().size(), aux.c_str());
+  }
+  else {
+    Label l; l.set_id(label_id);
+    report_embed(code, l, pre, aux.c_str());
+  }
+}
+
 static void do_embed(State& st, int mode, size_t pre) {
-  Environment env = (mode == 2) ? Environment(Arch::kAArch64) : Environment(Arch::kX64);
+  Environment env = (mode == 2 || mode == 6 || mode == 7) ? Environment(Arch::kAArch64) : Environment(Arch::kX64);
   CodeHolder code;
   code.init(env);
   if (mode == 0) {
     x86::Assembler a(&code);
     emit_prefix(a, pre);
+    dirty_destination(a, st, pre);
     Label l = a.new_label();
     Error e = a.embed_const_pool(l, *st.pool);
-    report_embed(code, l, pre, e == Error::kOk ? "ok" : err_name(e));
+    report_embed(code, l, pre, e == Error::kOk ? "ok" : err_name(e), a.offset());
   }
   else if (mode == 4) {
     StringLogger lg;
     code.set_logger(&lg);
     x86::Assembler a(&code);
     emit_prefix(a, pre);
+    dirty_destination(a, st, pre);
     size_t mark = lg.data_size();
     Label l = a.new_label();
     Error e = a.embed_const_pool(l, *st.pool);
@@ -145,57 +207,20 @@ static void do_embed(State& st, int mode, size_t pre) {
       }
     }
     std::string aux = (e == Error::kOk ? std::string("ok") : std::string(err_name(e))) + ",log=" + std::to_string(item) + ":" + bytes_hex + (bad ? ":MIXED" : "");
-    report_embed(code, l, pre, aux.c_str());
+    report_embed(code, l, pre, aux.c_str(), a.offset());
   }
-  else if (mode == 1) {
-    x86::Builder b(&code);
-    emit_prefix(b, pre);
-    Label l = b.new_label();
-    Error e = b.embed_const_pool(l, *st.pool);
-    Error f = b.finalize();
-    report_embed(code, l, pre, (e == Error::kOk && f == Error::kOk) ? "ok" : "error");
-  }
+  else if (mode == 1) embed_builder<x86::Builder>(st, code, pre);
+  else if (mode == 6) embed_builder<a64::Builder>(st, code, pre);
   else if (mode == 2) {
     a64::Assembler a(&code);
     emit_prefix(a, pre);
+    dirty_destination(a, st, pre);
     Label l = a.new_label();
     Error e = a.embed_const_pool(l, *st.pool);
-    report_embed(code, l, pre, e == Error::kOk ? "ok" : err_name(e));
+    report_embed(code, l, pre, e == Error::kOk ? "ok" : err_name(e), a.offset());
   }
-  else {
-    x86::Compiler cc(&code);
-    emit_prefix(cc, pre);
-    ConstPoolScope scope = (mode == 5) ? ConstPoolScope::kLocal : ConstPoolScope::kGlobal;
-    if (mode == 5) cc.add_func(FuncSignature::build<void>());
-    std::string aux = "ok";
-    uint32_t label_id = Globals::kInvalidId;
-    for (size_t i = 0; i < st.adds.size(); i++) {
-      const AddRec& r = st.adds[i];
-      BaseMem m;
-      Error e = cc._new_const(Out<BaseMem>(m), scope, r.data.data(), r.size);
-      bool ok = (e == Error::kOk);
-      if (ok != r.ok) { aux = "replay-status-mismatch@" + std::to_string(i); break; }
-      if (ok) {
-        if (size_t(int64_t(m.offset())) != r.off || m.signature().size() != uint32_t(r.size) || !m.has_base_label()) { aux = "replay-mem-mismatch@" + std::to_string(i); break; }
-        if (label_id == Globals::kInvalidId) label_id = m.base_id();
-        else if (label_id != m.base_id()) { aux = "replay-label-mismatch@" + std::to_string(i); break; }
-      }
-      else if (m.has_base() || m.offset() != 0) { aux = "replay-error-wrote-operand@" + std::to_string(i); break; }
-    }
-    if (mode == 5) { cc.ret(); cc.end_func(); }
-    Error f = cc.finalize();
-    if (f != Error::kOk) aux += ",finalize-error";
-    if (mode == 5) pre = 0;   // the function body precedes the pool: only alignment and contents are judged
-    if (label_id == Globals::kInvalidId) {
-      // no successful add: no pool node exists, nothing is emitted after the prefix
-      Section* text = code.text_section();
-      printf("E  | pre=%zu lab=%zu end=%zu pad=1 aux=%s,nopool\n", pre, text->buffer().size(), text->buffer().size(), aux.c_str());
-    }
-    else {
-      Label l; l.set_id(label_id);
-      report_embed(code, l, pre, aux.c_str());
-    }
-  }
+  else if (mode == 7) embed_compiler<a64::Compiler>(st, code, pre, false);
+  else embed_compiler<x86::Compiler>(st, code, pre, mode == 5);
 }
 
 template<typename Emitter>
@@ -224,6 +249,49 @@ static void do_execute(State& st, int mode) {
   typedef void (*Fn)(uint8_t*);
   Fn fn = nullptr;
   Error err = Error::kOk;
+  if (mode == 3) {
+    // several functions in ONE Compiler / CodeHolder: constant i is read by function i % 3; within a function the constants
+    // alternate between its LOCAL pool (emitted by end_func, one pool per function) and the GLOBAL pool (shared, emitted at the end)
+    const size_t kFuncs = 3;
+    x86::Compiler cc(&code);
+    Label entry[kFuncs];
+    std::vector<size_t> posv;
+    size_t pos = 0;
+    for (const AddRec& r : st.adds) { posv.push_back(pos); if (r.ok) pos += r.size; }
+    for (size_t fi = 0; fi < kFuncs; fi++) {
+      FuncNode* f = cc.add_func(FuncSignature::build<void, uint8_t*>());
+      entry[fi] = f->label();
+      x86::Gp outp = cc.new_gp_ptr("out");
+      x86::Gp t = cc.new_gp64("t");
+      f->set_arg(0, outp);
+      size_t k = 0;
+      for (size_t i = 0; i < st.adds.size(); i++) {
+        const AddRec& r = st.adds[i];
+        if (!r.ok || (i % kFuncs) != fi) continue;
+        ConstPoolScope scope = ((k++) % 2 == 0) ? ConstPoolScope::kLocal : ConstPoolScope::kGlobal;
+        x86::Mem m = cc.new_const(scope, r.data.data(), r.size);
+        emit_copy(cc, outp, t, m, r.size, posv[i]);
+      }
+      cc.ret();
+      cc.end_func();
+    }
+    err = cc.finalize();
+    if (err == Error::kOk) err = rt.add(&fn, &code);
+    if (err != Error::kOk || !fn) { printf("X ERROR %u\n", unsigned(err)); return; }
+    uint8_t* base = reinterpret_cast<uint8_t*>(fn);   // JitRuntime::add returns the address the code was copied to (offset 0)
+    for (size_t fi = 0; fi < kFuncs; fi++) {
+      Fn g = reinterpret_cast<Fn>(base + code.label_offset(entry[fi]));
+      g(out.data());
+    }
+    rt.release(fn);
+    bool guard3 = true;
+    for (size_t i = total; i < total + 16; i++) if (out[i] != 0xCC) guard3 = false;
+    printf("X ");
+    if (!guard3) printf("GUARD-BROKEN ");
+    print_hex(out.data(), total);
+    printf("\n");
+    return;
+  }
   if (mode == 0 || mode == 1) {
     x86::Compiler cc(&code);
     FuncNode* f = cc.add_func(FuncSignature::build<void, uint8_t*>());
